@@ -548,6 +548,10 @@ def run(prog, rep, tier):
     rep.floor('MPS-coupled-order', 8)
     rep.floor('MPS-form-flow', 4)
     rep.assumptions += ['that the transformed state equals the dense image is NOT decided']
+    from ..flow import check_carried_flags
+    rep.rule('LOOP-carried-flag', 'a flag set under a test inside a loop body and read there is '
+             're-initialised per iteration')
+    check_carried_flags(prog, rep, ['tenpy/networks/mps.py'])
     return rep.finish(
         level='other',
         explanation='Coupled-update order of the per-site lists (%d transformation functions), '
